@@ -188,6 +188,20 @@ Theorem cache_drop_orig_refuted :
 Proof. exact cd_orig_refuted. Qed.
 Print Assumptions cache_drop_orig_refuted.
 
+(* the second select of sendJob (after a successful send) is load-bearing: a Load that is still running when the
+   finalizer ran, arrives after the last worker has left and finds room in the channel; without the re-check its
+   job stays queued for ever; with it the sender drains the channel itself *)
+Theorem cache_drop_send_without_recheck_refuted :
+  let s := cd_run CdNoRecheck (cd_init 1 1 [1]%nat) [CdClose; CdWorker 0 false; CdSender 0 true] in
+  cd_quiescent s = true /\ cd_ran s = [] /\ cd_chan s = [1%nat].
+Proof. exact cd_no_recheck_refuted. Qed.
+Print Assumptions cache_drop_send_without_recheck_refuted.
+
+Example cache_drop_late_sender_nonvacuous :
+  let s := cd_run CdFixed (cd_init 1 1 [1]%nat) [CdClose; CdWorker 0 false; CdSender 0 true; CdSender 0 true] in
+  cd_quiescent s = true /\ cd_ran s = [1%nat] /\ cd_chan s = [].
+Proof. exact cd_fixed_late_sender. Qed.
+
 Example cache_drop_nonvacuous :
   let s := cd_run CdFixed (cd_init 1 1 [1; 2]%nat) [CdSender 0 true; CdClose; CdWorker 0 false; CdSender 1 false; CdSender 0 true] in
   cd_quiescent s = true /\ cd_ran s = [1; 2]%nat /\ cd_chan s = [].
